@@ -34,8 +34,19 @@ CHECKS = {
    text="Seeded window-consistent stream histories over 2-3 simulated windows (+ static graph) with arrivals, re-arrivals (renewal), bursts and gaps; the simulated clock picks increasing evaluation times (dense, sparse, jumping past every expiry); at every step the real incremental_sds_plus (carried state) is compared per component, fact by fact and expiry by expiry, with a from-scratch reference least model with the expiry lattice; naive_sds_plus must agree on fact sets.",
    note="Window contents are simulated as the quantifier states (a triple listed once with its latest arrival until it expires); the RSPEngine wiring that builds the SDS from real windows is not part of this check.",
    technique="deterministic simulation: simulated stream/evaluation clock, step-by-step refinement against a from-scratch reference model"),
+
+ "C04": dict(engine="dbsim-store", level="exploration", ref="6.3",
+   text="Seeded histories of 10-200 store operations (insert/delete quad and triple, create/clear/drop graph, clear, index rebuild, clone, serde round trip) on the real DatasetIndex / SparqlDatabase; after every operation all lookup shapes are compared with an abstract quad set + graph catalog and checked for duplicates. Refinement against a reference model over operation histories; weak fit: the property has no fault or scheduling dimension, the simulator owns only the history, the hash seed and where rebuilds fall.",
+   note="Sampling of histories, not enumeration of the small universe; u32 ids are used directly (no dictionary).",
+   technique="operation-history simulation with reference-model refinement after every step (no fault dimension exists)"),
+ "C15": dict(engine="dbsim-dict", level="exploration", ref="6.12",
+   text="Seeded encode / decode / quoted-encode / add-quad histories on two real databases with clashing identifiers, bijection invariants after every step, then SparqlDatabase::union compared with the model union (lexical quads, graph identities, quoted terms, probability seeds). Weak fit: hash seed is the only nondeterminism.",
+   note="Terms are generated so that Kolibrie's storage convention cannot confuse kinds (absolute IRIs, plain literals).",
+   technique="operation-history simulation with a bijection reference model; hash-seed perturbation only"),
 }
 ENGINES = [
+  {"name": "dbsim-store", "path": "sim/ksim-db/src/store.rs", "serves_properties": ["C04"], "kind_free_text": "store-API history simulator"},
+  {"name": "dbsim-dict", "path": "sim/ksim-db/src/dict.rs", "serves_properties": ["C15"], "kind_free_text": "dictionary / union history simulator"},
   {"name": "hybsim", "path": "sim/ksim-core/src/hybsim.rs", "serves_properties": ["C08"], "kind_free_text": "lineage/controller simulator under a scripted HybridClock"},
   {"name": "dlsim", "path": "sim/ksim-core/src/dlsim.rs", "serves_properties": ["C05", "C12", "C19"], "kind_free_text": "Datalog reasoner simulator (simulated rayon pool, hash seeds, evaluation clock)"},
   {"name": "sddsim", "path": "sim/ksim-core/src/sddsim.rs", "serves_properties": ["C07"], "kind_free_text": "operation-history simulator over SddManager with budget-closure fault injection"},
